@@ -1,6 +1,6 @@
 #!/bin/bash
 # Behaviour-preserving refactorings written by sub-agents (one per property, 5-10 edits each): every quick check must stay silent on each.
-# usage: selftest/run_all_benign.sh [filter]   (each patch is applied to a scratch worktree of /repo HEAD under /tmp, removed afterwards)
+# usage: [BENIGN_CHECKS="10 17"] selftest/run_all_benign.sh [filter]   (each patch is applied to a scratch worktree of /repo HEAD under /tmp, removed afterwards)
 cd "$(dirname "$0")/.."
 rc=0
 for patch in selftest/benign/C*.diff; do
@@ -11,10 +11,10 @@ for patch in selftest/benign/C*.diff; do
   if ! git -C "$WT" apply "$(realpath "$patch")"; then echo "BENIGN $id: patch does not apply"; rc=1; git -C /repo worktree remove --force "$WT"; continue; fi
   EV=$(mktemp -d /tmp/ben-ev-XXXXXX)
   bad=""
-  for i in 01 02 03 04 05 06 07 08 09 10 11 12 13 14 15 16 17 18 19 20; do
+  for i in ${BENIGN_CHECKS:-01 02 03 04 05 06 07 08 09 10 11 12 13 14 15 16 17 18 19 20}; do
     VERIF_REPO="$WT" VERIF_EVIDENCE_DIR="$EV" ./check C$i >"$EV/out.txt" 2>&1 || { bad="$bad C$i"; grep -E "VIOLATION rule|UNRECOGNISED|MISSING" "$EV/out.txt" | cut -c1-240 | head -3; }
   done
-  if [ -z "$bad" ]; then echo "BENIGN $id: all 20 checks silent"; else echo "BENIGN $id: FALSE ALARM in$bad"; rc=1; fi
+  if [ -z "$bad" ]; then echo "BENIGN $id: all checks silent (${BENIGN_CHECKS:-all 20})"; else echo "BENIGN $id: FALSE ALARM in$bad"; rc=1; fi
   rm -rf "$EV"; git -C /repo worktree remove --force "$WT" >/dev/null 2>&1; rm -rf "$WT"
 done
 exit $rc
